@@ -213,4 +213,34 @@ theorem dtype_stable_run {s : State} (hw : WF s) {l : Nat} (hl : l < s.nLayers) 
     · exact h
     · exact absurd h (hn op (List.mem_cons_self ..))
 
+/-! ### coded arguments of the generated numpy tables (`Gen/NumpyTables.lean`) -/
+
+/-- the dtype coded by its rank in the generated numpy tables -/
+def DType.ofCode : Nat → Option DType
+  | 0 => some .bool
+  | 1 => some .int
+  | 2 => some .float
+  | _ => none
+
+/-- the protocol's (and the generated tables') name of a ufunc -/
+def UOp.name : UOp → String
+  | .add => "add" | .sub => "sub" | .mul => "mul" | .max => "max" | .min => "min"
+  | .land => "and" | .lor => "or" | .lxor => "xor"
+
+def UOp.ofName (n : String) : Option UOp :=
+  [UOp.add, .sub, .mul, .max, .min, .land, .lor, .lxor].find? (·.name == n)
+
+/-- the model's assignment cast on coded arguments -/
+def castCode (d t : Nat) (raw : Int) : Option Int := do
+  let d ← DType.ofCode d
+  let t ← DType.ofCode t
+  pure (castTo d ⟨t, raw⟩)
+
+/-- the model's ufunc value on coded arguments -/
+def applyCode (op : String) (d : Nat) (v : Int) (t : Nat) (raw : Int) : Option Int := do
+  let op ← UOp.ofName op
+  let d ← DType.ofCode d
+  let t ← DType.ofCode t
+  pure (op.apply d ⟨t, raw⟩ v)
+
 end Mesa.Layers
